@@ -520,6 +520,12 @@ func (t *simTransport) RoundTrip(req *http.Request) (*http.Response, error) {
 	}
 	target := cl.byAPI(req.URL.Host)
 	simrt.Event("FORWARD r%d attempt=%d from=n%d to=%s depth=%d", tr.idx, attempt, t.owner.idx+1, req.URL.Host, f.depth+1)
+	// the forwarder's belief about the target's role AT DECISION TIME (a
+	// delayed delivery may see the registry re-registered meanwhile)
+	beliefAtDecision := ""
+	if target != nil {
+		beliefAtDecision = cl.viewRole[t.owner.idx][target.idx]
+	}
 	if cl.p.LatencyUs > 0 {
 		simrt.Sleep(time.Duration(cl.p.LatencyUs) * time.Microsecond)
 	}
@@ -558,7 +564,7 @@ func (t *simTransport) RoundTrip(req *http.Request) (*http.Response, error) {
 		}
 	}
 	hdr = append(hdr, [2]string{"User-Agent", "Go-http-client/1.1"})
-	tr.beliefs = append(tr.beliefs, cl.viewRole[t.owner.idx][target.idx])
+	tr.beliefs = append(tr.beliefs, beliefAtDecision)
 	if !canServe(target.cfg, isWriteKind(tr.req.Kind)) {
 		simrt.Count("probe.forward_reached_incapable_target", 1)
 	}
@@ -869,7 +875,9 @@ func (cl *clusterSim) judge(out *simkit.Outcome, quietRun bool) {
 			if forwards > 0 || tr.attempts > 0 {
 				out.Violate("C30.local.capable-receiver-forwarded."+class, "request r%d (%s, client marker %q) entered at n%d (%s, router=%v) which can serve it, yet it was forwarded: %s",
 					tr.idx, q.Kind, q.FwdBy, q.Entry+1, entryCfg.Role, entryCfg.Router, chain(tr))
-			} else if proc[q.Entry] != 1 || !ok2xx {
+			} else if (proc[q.Entry] != 1 || !ok2xx) && q.Kind != "qarrow" {
+				// (the Arrow endpoint has no registry evidence; its status alone depends on
+				// the shared DuckDB instance and is not a routing verdict)
 				out.Violate("C30.local.capable-receiver-did-not-serve."+class, "request r%d (%s, client marker %q) entered at n%d (%s, router=%v) which can serve it; status %d, processed %d times there",
 					tr.idx, q.Kind, q.FwdBy, q.Entry+1, entryCfg.Role, entryCfg.Router, tr.status, proc[q.Entry])
 			}
